@@ -371,7 +371,7 @@ def oracle_disagrees(case, final, coords):
             raise RuntimeError("generator produced an off-grid shift")
     for i in range(ns):
         if coords is None:
-            key = (F(i - n),)
+            key = (F(i - n),) + ((F(0), F(0)) if case["mode"] != "1d" else ())
         elif g:
             key = tuple(F(round(float(x) / g)) for x in coords[i])
             if max(abs(float(x) / g - round(float(x) / g)) for x in coords[i]) > 1e-6:
@@ -426,9 +426,11 @@ def sig(case):
 def run(ctx):
     proved = ctx.prove(gen=True)
     quick = ctx.tier == "quick"
-    ncase = 60 if quick else 1200
+    ncase = 100 if quick else 1500
     terms, owners, recorded = [], [], []
     dist = {}
+    oracle_bad = set()
+    attstat = {"total": 0, "in(0.01,0.99)": 0, ">1": 0}
     noracle = 0
     for ci in range(ncase):
         case = gen_case(ctx.rng, quick)
@@ -443,6 +445,10 @@ def run(ctx):
         for d in ds:
             terms.append(corr_term(case, d))
             owners.append(case)
+            for x in list(np.ravel(d["DT"])) + list(np.ravel(d["DL"])):
+                attstat["total"] += 1
+                attstat["in(0.01,0.99)"] += 0.01 < float(np.real(x)) < 0.99
+                attstat[">1"] += float(np.real(x)) > 1
             if len(recorded) < (24 if quick else 200):
                 i = ctx.rng.randrange(len(d["DL"]))
                 recorded.append((d, i, ctx.rng.choice(["L", "T"])))
@@ -455,10 +461,12 @@ def run(ctx):
             why = "simulate() raised %s: %s" % (type(e).__name__, str(e)[:200])
         noracle += 1
         if why:
+            oracle_bad.add(id(case))
             ctx.report("states differ from the explicit sum over coherence pathways with exp(-int k^T D k dt): " + why,
                        {"case": case}, found_input=True, signature={"oracle": "pathway-sum", "mode": case["mode"]})
     ctx.cov["oracle_runs"] = noracle
     ctx.notes["case_distribution"] = dist
+    ctx.notes["attenuation_factors"] = attstat
     verdicts, errors = ctx.run_bool_cases("corr", CORR_HEADER, terms, chunk=12)
     for e in errors:
         ctx.report("correspondence shard failed to evaluate", {"theorem_or_correspondence": "C05 correspondence (Cases)", "coq_output": e}, found_input=False)
@@ -467,8 +475,8 @@ def run(ctx):
     for case, v in zip(owners, verdicts):
         if v is False:
             nbad += 1
-            if len(ctx.violations) == nviol:
-                ctx.report("Model/Diffusion.v and D._apply disagree (b-matrices from (k - shift -> k) / state update); no pathway discrepancy was found for it",
+            if len(ctx.violations) == nviol and id(case) not in oracle_bad:
+                ctx.report("Model/Diffusion.v and D._apply disagree (b-matrices from (k - shift -> k) / state update) on a sequence for which the pathway oracle saw no discrepancy",
                            {"case": case, "theorem_or_correspondence": "C05 correspondence Model/Diffusion.v vs epgpy.diffusion.D._apply"}, found_input=False)
     ctx.cov["correspondence_D_applications"] = len(terms)
     ctx.cov["correspondence_disagreements"] = nbad
@@ -480,11 +488,26 @@ def run(ctx):
         "observation of the b-matrices by wrapping epgpy.diffusion.diffusion_operator at run time",
         "the n-D / gridded shift back-ends are NOT modelled here (C04): the correspondence takes the coordinates they produce as input",
         "Coquelicot + Interval libraries; axioms as printed by Print Assumptions (classical reals, functional extensionality, classic)"]
+    ctx.notes["observation_tensor_D_before_first_shift"] = probe_fresh_tensor()
     if not proved and not ctx.violations:
         ctx.report("proof obligations of C05 no longer check: %s" % ctx.failed_obligations,
                    {"theorem_or_correspondence": ctx.failed_obligations}, found_input=False)
     elif not proved:
         ctx.notes["failed_obligations_with_failing_input"] = ctx.failed_obligations
+
+
+def probe_fresh_tensor():
+    """recorded, not judged here (reported to the lead): a 3x3 tensor D in a gradient-free interval BEFORE the first
+    3-D shift meets a state matrix without coordinates (kdim 1); since fix 6403b86 D._apply rejects it, although the
+    physical answer is well defined (k = 0: no attenuation).  The generator keeps such intervals scalar."""
+    import epgpy as epg
+    Dt = np.diag([1e-3, 2e-3, 3e-3])
+    seq = [epg.T(90, 0), epg.D(10.0, Dt), epg.S(np.array([1, 0, 2])), epg.D(10.0, Dt, np.array([1, 0, 2])), epg.ADC]
+    try:
+        epg.simulate(seq, kvalue=2e4)
+        return "accepted"
+    except Exception as e:
+        return "raises %s: %s" % (type(e).__name__, e)
 
 
 def replay(ctx, rp):
